@@ -596,3 +596,27 @@ Theorem cp_run_inv ops :
   let c := fst (cp_run cb g connp_new ops) in c_fault c = false /\ (status_okb c = true -> run_inv c).
 Proof. intros Hp. exact (cp_run_ok ops connp_new run_ok_inv_new Hp). Qed.
 End RunTop.
+
+(* ------------------------------------------------------------------------------------------------ *)
+(* 5. helpers for concrete runs (used by the examples of Properties_C01) *)
+
+(* premise (a) for a scripted oracle: no entry of the script destroys *)
+Definition script_nodestroyb (s : list (nat * nat * cb_action)) : bool :=
+  forallb (fun e => match snd e with CB_DESTROY_TX => false | _ => true end) s.
+Lemma script_nodestroy s : script_nodestroyb s = true -> forall h n, script_lookup s h n <> CB_DESTROY_TX.
+Proof.
+  induction s as [|[[h' n'] a] r IH]; intros Hs h n; cbn [script_lookup]; [discriminate|].
+  cbn [script_nodestroyb forallb snd] in Hs. apply andb_prop in Hs. destruct Hs as [H1 H2].
+  destruct (_ && _)%bool; [|exact (IH H2 h n)]. destruct a; try discriminate.
+Qed.
+
+(* a boolean that holds of the state after every prefix of a run *)
+Definition prefixes_allb (P : connp -> bool) cb g (ops : list cp_op) : bool :=
+  forallb (fun n => P (fst (cp_run cb g connp_new (firstn n ops)))) (seq 0 (S (length ops))).
+Lemma prefixes_all P cb g ops : prefixes_allb P cb g ops = true -> forall n, P (fst (cp_run cb g connp_new (firstn n ops))) = true.
+Proof.
+  unfold prefixes_allb. intros H n. rewrite forallb_forall in H.
+  destruct (Nat.le_gt_cases n (length ops)) as [L|L].
+  - apply H. apply in_seq. lia.
+  - rewrite firstn_all2 by lia. specialize (H (length ops)). rewrite firstn_all in H. apply H. apply in_seq. lia.
+Qed.
